@@ -7,11 +7,16 @@ THEOREMS = ["ZwVerif.C04." + t for t in
              "pred_not_three_valued", "assertWord_yields_input_or_nothing", "assertWord_pos_xor_neg",
              "cmpWord_yields_input_or_nothing", "let_preserves_below", "capture_adds_one"]]
 
+# the op_capture / op_subx / op_ifelse / op_assert machines compute the per-input rule, whatever the sub-expressions yield
+SUBOP_THEOREMS = ["ZwVerif.SubOps." + t for t in
+                  ["capture_refines", "capture_only_behaviour", "subx_refines", "subx_only_behaviour", "ifelse_refines",
+                   "ifelse_only_behaviour", "assert_refines", "assert_only_behaviour", "assert_subx_any", "body_drain", "drain_det"]]
+
 PREDW = ["?eq", "?lt", "?gt", "?ne", "?ge", "?le", "?empty", "?find", "?starts", "?ends", "?contains", "?overlaps"]
 
 
 def run(ctx):
-    ctx.prove("ZwVerif.Props.C04", THEOREMS)
+    ctx.prove("ZwVerif.Props.C04", THEOREMS + SUBOP_THEOREMS, extra_targets=["ZwVerif.Props.C04SubOps"])
     h = zwcorr.Harness(ctx)
     rng = ctx.rng
     n = 600 if ctx.tier == "quick" else 12000
@@ -61,6 +66,37 @@ def run(ctx):
                 for form in ("%s ?(%s)", "%s !(%s)", "%s let Q := %s;", "%s [%s]", "%s (%s == 1)",
                              "%s if (%s) then (1) else (2)", '%s "%%( %s %%)"', "%s (%s || 0)"):
                     progs.append(form % (v, e))
+    # every predicate word, bare on the main stack, on operands of the types it takes (equal, overlapping, nested, empty …),
+    # above values of every type that carry a position: the whole stack must come out as it went in
+    if not ctx.replay:
+        INTS = ["1", "2", "0x1", "-1"]
+        STRS = ['"ab"', '"a"', '"b"', '""', '"abab"']
+        SEQS = ["[1, 2]", "[1]", "[]", "[2]", "[1, 2, 1, 2]", "[[1]]"]
+        ASETS = ["0 4 aset", "2 8 aset", "4 8 aset", "0 0 aset", "0 4 aset 8 12 aset add", "0 16 aset"]
+        JUNK = ["", "[{1}, {2}, {3}] elem", '"xyz" elem', "[[7], [8]] elem", "[0 4 aset, 2 8 aset] elem", "(5, 6) [{9}] relem"]
+        typed = []
+        for w in ("eq", "ne", "lt", "gt", "le", "ge"):
+            for pool in (INTS, STRS[:3], SEQS[:4], ASETS[:3]):
+                typed += [(a, b, w) for a in pool for b in pool]
+        for w in ("find", "starts", "ends"):
+            for pool in (STRS, SEQS):
+                typed += [(a, b, w) for a in pool for b in pool]
+        typed += [(a, b, w) for w in ("overlaps", "contains") for a in ASETS for b in ASETS]
+        typed += [(a, b, "contains") for a in ASETS for b in ("0", "3", "4", "15", "16")]
+        typed += [(a, "", "empty") for a in STRS + SEQS + ASETS]
+        typed += [(a, b, "match") for a in STRS for b in ('"a"', '"^ab"', '"b$"', '"(ab)*"')]
+        rng.shuffle(typed)
+        for a, b, w in typed[:(400 if ctx.tier == "quick" else len(typed))]:
+            j = rng.choice(JUNK)
+            sign = rng.choice("?!")
+            tail = rng.choice(["", "", " %s%s" % (rng.choice("?!"), w), " pos", " swap", " drop"])
+            progs.append(("%s %s %s %s%s%s" % (j, a, b, sign, w, tail)).strip())
+        # … and the sub-expression contexts above positioned values of every type
+        for j in JUNK[1:]:
+            for form in ("%s let Q := %s;", "%s ?(%s)", "%s [%s]", "%s (%s == 1)", "%s if (%s) then (1) else (2)", '%s "%%( %s %%)"',
+                         "%s (%s || 0)", "%s (%s, 2)", "%s (|A| %s A)"):
+                for e in ("7", "dup", "drop 1", "pos", "type"):
+                    progs.append((form % (j, e)) + rng.choice([" pos", "", " swap pos", " ?0", " !1"]))
     # regular-expression matching (regexec is a parameter of the model): on the implementation, valid and invalid patterns
     if not ctx.replay:
         for subj in ('"abc"', '("abc", "x")', '""', '"a(b"'):
